@@ -10,7 +10,7 @@ import sys
 import time
 
 ROOT = os.path.dirname(os.path.dirname(os.path.abspath(__file__)))
-EXTRA = {"C01": ["C10", "C07"], "C02": ["C04"], "C17": ["C04", "C11"], "C10": ["C01"], "C05": ["C18", "C11", "C13", "C17"], "C16": ["C15"], "C12": ["C05"], "C08": ["C13"], "C03": ["C11"], "C11": ["C03", "C05"], "C13": ["C12"], "C09": ["C02"]}
+EXTRA = {"C07": ["C18", "C10"], "C06": ["C10"], "C18": ["C05"], "C01": ["C10", "C07"], "C02": ["C04"], "C17": ["C04", "C11"], "C10": ["C01"], "C05": ["C18", "C11", "C13", "C17"], "C16": ["C15"], "C12": ["C05"], "C08": ["C13"], "C03": ["C11"], "C11": ["C03", "C05"], "C13": ["C12"], "C09": ["C02"]}
 
 
 def main(argv):
